@@ -427,7 +427,7 @@ def main(argv=None):
     r.add_argument("file")
     r.add_argument("--repo", default="/repo")
     s = sub.add_parser("selftest")
-    s.add_argument("what", choices=["determinism", "mutants", "smoke"])
+    s.add_argument("what", choices=["determinism", "mutants", "smoke", "model"])
     s.add_argument("--repo", default="/repo")
     s.add_argument("--properties", default="")
     s.add_argument("--seeds", type=int, default=0)
